@@ -380,7 +380,72 @@ type lockFact struct {
 	fields      []string
 	calls       []string
 	self        []string // methods called on the method's own receiver
+	writes      []string // receiver fields the method assigns to, increments, or deletes from (directly or through an index / sub-field)
 	goStmts     int
+}
+
+// rootField: for an expression rooted at `recv.f` (possibly indexed, dereferenced or selected further), the name f.
+// A local variable that was bound to something rooted at `recv.f` (`m := s.f[k]`, `for _, m := range s.f`) stands for
+// f when it is written through (`m[j] = v`, `delete(m, j)`, `m.x = v`) - not when the variable itself is reassigned.
+func rootField(e ast.Expr, recv string, alias map[string]string) (string, bool) {
+	through := false
+	for {
+		switch v := e.(type) {
+		case *ast.ParenExpr:
+			e = v.X
+		case *ast.StarExpr:
+			e, through = v.X, true
+		case *ast.IndexExpr:
+			e, through = v.X, true
+		case *ast.SliceExpr:
+			e, through = v.X, true
+		case *ast.SelectorExpr:
+			if id, ok := v.X.(*ast.Ident); ok && id.Name == recv && recv != "" {
+				return v.Sel.Name, true
+			}
+			e, through = v.X, true
+		case *ast.Ident:
+			if f, ok := alias[v.Name]; ok && through {
+				return f, true
+			}
+			return "", false
+		default:
+			return "", false
+		}
+	}
+}
+
+// rootFieldOrAlias: an expression that is, or leads through, a local standing for a receiver field
+func rootFieldOrAlias(e ast.Expr, alias map[string]string) (string, bool) {
+	for {
+		switch v := e.(type) {
+		case *ast.ParenExpr:
+			e = v.X
+		case *ast.StarExpr:
+			e = v.X
+		case *ast.IndexExpr:
+			e = v.X
+		case *ast.SelectorExpr:
+			e = v.X
+		case *ast.Ident:
+			f, ok := alias[v.Name]
+			return f, ok
+		default:
+			return "", false
+		}
+	}
+}
+
+// the first argument of delete: the map itself is what is written
+func rootFieldOrAliasDirect(e ast.Expr, recv string, alias map[string]string) (string, bool) {
+	if f, ok := rootField(e, recv, alias); ok {
+		return f, true
+	}
+	if id, ok := e.(*ast.Ident); ok {
+		f, ok := alias[id.Name]
+		return f, ok
+	}
+	return "", false
 }
 
 func lockFacts(f *ast.File) []lockFact {
@@ -400,6 +465,8 @@ func lockFacts(f *ast.File) []lockFact {
 		}
 		lf := lockFact{typ: typ, method: fd.Name.Name}
 		fieldSeen := map[string]bool{}
+		writeSeen := map[string]bool{}
+		alias := map[string]string{}
 		var visit func(n ast.Node, deferred bool)
 		visit = func(n ast.Node, deferred bool) {
 			ast.Inspect(n, func(x ast.Node) bool {
@@ -417,6 +484,12 @@ func lockFacts(f *ast.File) []lockFact {
 					return false
 				case *ast.CallExpr:
 					name := exprString(v.Fun)
+					if name == "delete" && len(v.Args) > 0 {
+						if f, ok := rootFieldOrAliasDirect(v.Args[0], recvName, alias); ok && !writeSeen[f] {
+							writeSeen[f] = true
+							lf.writes = append(lf.writes, f)
+						}
+					}
 					for _, op := range []string{".Lock", ".RLock", ".Unlock", ".RUnlock"} {
 						if strings.HasSuffix(name, op) {
 							pre := ""
@@ -432,6 +505,51 @@ func lockFacts(f *ast.File) []lockFact {
 							lf.self = append(lf.self, name[len(recvName)+1:])
 						}
 					}
+				case *ast.AssignStmt:
+					for _, l := range v.Lhs {
+						if f, ok := rootField(l, recvName, alias); ok && !writeSeen[f] {
+							writeSeen[f] = true
+							lf.writes = append(lf.writes, f)
+						}
+					}
+					// a local bound to (part of) a receiver field stands for that field from here on
+					for i, l := range v.Lhs {
+						id, ok := l.(*ast.Ident)
+						if !ok || id.Name == "_" {
+							continue
+						}
+						var rhs ast.Expr
+						if len(v.Rhs) == len(v.Lhs) {
+							rhs = v.Rhs[i]
+						} else if i == 0 && len(v.Rhs) == 1 {
+							rhs = v.Rhs[0]
+						}
+						if rhs == nil {
+							continue
+						}
+						if f, ok := rootField(rhs, recvName, map[string]string{}); ok {
+							alias[id.Name] = f
+						} else if f, ok := rootFieldOrAlias(rhs, alias); ok {
+							alias[id.Name] = f
+						} else {
+							delete(alias, id.Name)
+						}
+					}
+				case *ast.RangeStmt:
+					if f, ok := rootField(v.X, recvName, map[string]string{}); ok {
+						if id, ok := v.Value.(*ast.Ident); ok && id.Name != "_" {
+							alias[id.Name] = f
+						}
+					} else if f, ok := rootFieldOrAlias(v.X, alias); ok {
+						if id, ok := v.Value.(*ast.Ident); ok && id.Name != "_" {
+							alias[id.Name] = f
+						}
+					}
+				case *ast.IncDecStmt:
+					if f, ok := rootField(v.X, recvName, alias); ok && !writeSeen[f] {
+						writeSeen[f] = true
+						lf.writes = append(lf.writes, f)
+					}
 				case *ast.SelectorExpr:
 					if id, ok := v.X.(*ast.Ident); ok && id.Name == recvName && recvName != "" {
 						if !fieldSeen[v.Sel.Name] {
@@ -445,6 +563,7 @@ func lockFacts(f *ast.File) []lockFact {
 		}
 		visit(fd.Body, false)
 		sort.Strings(lf.fields)
+		sort.Strings(lf.writes)
 		out = append(out, lf)
 	}
 	return out
@@ -708,6 +827,17 @@ func main() {
 	}
 	w("]")
 	w("")
+	w("/-- (type, method, receiver fields it writes: assigned, incremented, deleted from - directly, through an index or a sub-field) -/")
+	w("def writeFacts : List (String × String × List String) := [")
+	for i, l := range lfs {
+		sep := ","
+		if i == len(lfs)-1 {
+			sep = ""
+		}
+		w("  (%s, %s, %s)%s", lstr(l.typ), lstr(l.method), llist(l.writes), sep)
+	}
+	w("]")
+	w("")
 	w("/-- (type, method, methods it calls on its own receiver) -/")
 	w("def selfCalls : List (String × String × List String) := [")
 	for i, l := range lfs {
@@ -805,6 +935,7 @@ func main() {
 		seenLF[name] = true
 		w("def locks_%s : List String := %s", name, llist(l.ops))
 		w("def fields_%s : List String := %s", name, llist(l.fields))
+		w("def writes_%s : List String := %s", name, llist(l.writes))
 		w("def calls_%s : List String := %s", name, llist(l.calls))
 	}
 	w("")
